@@ -150,7 +150,7 @@ def run_one(seed, tier, explicit=None):
                     raise Violation(PROP, 'battery-crashed', 'battery process failed under '
                                     'PYTHONHASHSEED=%s' % h,
                                     {'stderr': p.stderr[-1500:], 'hashseed': h})
-                res = json.load(open(out))
+                res = json.load(open(out, encoding='utf-8'))
                 os.unlink(out)
                 evals += 3
                 if res['dump_before'] != res['dump_after']:
